@@ -12,12 +12,25 @@ import ast
 from harness.extract import Fail, parse, find, src, coq_list, qstr, strip_doc
 
 
+PURE_CALLS = {'len', 'str', 'repr', 'float', 'int', 'round', 'sorted', 'list', 'tuple', 'sum', 'min', 'max'}
+
+
 def is_logging(stmt):
+    """a logging / print statement none of whose arguments can have an effect (calls other than the pure formatters
+    above keep the statement in the skeleton)"""
     if isinstance(stmt, ast.Expr) and isinstance(stmt.value, ast.Call):
         f = stmt.value.func
         while isinstance(f, ast.Attribute):
             f = f.value
-        return isinstance(f, ast.Name) and f.id in ('logger', 'logging', 'print')
+        if not (isinstance(f, ast.Name) and f.id in ('logger', 'logging', 'print')):
+            return False
+        for a in list(stmt.value.args) + [k.value for k in stmt.value.keywords]:
+            for n in ast.walk(a):
+                if isinstance(n, ast.Call) and not (isinstance(n.func, ast.Name) and n.func.id in PURE_CALLS):
+                    return False
+                if isinstance(n, (ast.NamedExpr, ast.Yield, ast.YieldFrom, ast.Await)):
+                    return False
+        return True
     return False
 
 
@@ -66,8 +79,11 @@ def skeleton(body, depth=0):
             emit('assert ' + src(st.test))
         elif isinstance(st, ast.AnnAssign):
             emit(src(st.target) + ((' = ' + src(st.value)) if st.value is not None else ''))
-        elif isinstance(st, (ast.FunctionDef, ast.ClassDef)):
-            emit(f'def {st.name}')
+        elif isinstance(st, ast.FunctionDef):
+            emit(f'def {st.name}({args_of(st)})' + ''.join(' @' + src(d) for d in st.decorator_list))
+            out.extend(skeleton(st.body, depth + 1))
+        elif isinstance(st, ast.ClassDef):
+            emit(f'class {st.name}({", ".join(src(b) for b in st.bases)})')
             out.extend(skeleton(st.body, depth + 1))
         elif isinstance(st, (ast.Assign, ast.AugAssign, ast.Expr, ast.Return, ast.Raise, ast.Break, ast.Continue,
                              ast.Delete, ast.Global, ast.Nonlocal, ast.Import, ast.ImportFrom)):
@@ -82,8 +98,12 @@ def args_of(fn):
     names = [x.arg for x in a.posonlyargs + a.args]
     defaults = [None] * (len(names) - len(a.defaults)) + list(a.defaults)
     parts = [n if d is None else f'{n}={src(d)}' for n, d in zip(names, defaults)]
+    if a.posonlyargs:
+        parts.insert(len(a.posonlyargs), '/')
     if a.vararg:
         parts.append('*' + a.vararg.arg)
+    elif a.kwonlyargs:
+        parts.append('*')
     for k, d in zip(a.kwonlyargs, a.kw_defaults):
         parts.append(k.arg if d is None else f'{k.arg}={src(d)}')
     if a.kwarg:
@@ -104,6 +124,33 @@ def fn_skeleton(tree, cls, name):
     return [head + (' @' + ','.join(deco) if deco else '')] + skeleton(fn.body, 1)
 
 
+def class_shape(tree, cls):
+    """bases, decorators, metaclass and the sorted member names of a class: a new method (`__setattr__`), another base
+    class or a class decorator changes behaviour without touching any pinned function body"""
+    c = find(tree, ast.ClassDef, cls)
+    members = sorted({n.name for n in c.body if isinstance(n, (ast.FunctionDef, ast.AsyncFunctionDef, ast.ClassDef))} |
+                     {t.id for n in c.body if isinstance(n, ast.Assign) for t in n.targets if isinstance(t, ast.Name)} |
+                     {n.target.id for n in c.body if isinstance(n, ast.AnnAssign) and isinstance(n.target, ast.Name)})
+    kw = ', '.join(f'{k.arg}={src(k.value)}' for k in c.keywords)
+    return [f'class {cls}({", ".join(src(b) for b in c.bases)}{", " + kw if kw else ""})'
+            + ''.join(' @' + src(d) for d in c.decorator_list) + ' members: ' + ' '.join(members)]
+
+
+def module_statements(tree):
+    """everything at module level that is not a def, a class or a docstring: imports (aliasing), constants,
+    rebinding of attributes (`ResourcePool.run_one_tick = f`), decorator registrations"""
+    out = []
+    for n in strip_doc(tree.body):
+        if isinstance(n, (ast.FunctionDef, ast.AsyncFunctionDef, ast.ClassDef)) or is_logging(n):
+            continue
+        if isinstance(n, ast.Assign) and isinstance(n.value, ast.Constant) and isinstance(n.value.value, str) \
+                and len(n.value.value) > 400:
+            out.append(f'module: {src(n.targets[0])} = <{len(n.value.value)}-character string>')   # the scheduler template
+            continue
+        out.extend('module: ' + x.split('| ', 1)[1] for x in skeleton([n], 0))
+    return out
+
+
 def class_consts(tree, cls):
     """class-level assignments (counters, constants) of a class"""
     c = find(tree, ast.ClassDef, cls)
@@ -118,9 +165,9 @@ def module_consts(tree):
 def src_item(rel, fns, classes=(), consts=False):
     def item():
         tree = parse(rel)
-        out = []
-        if consts:
-            out += module_consts(tree)
+        out = module_statements(tree)
+        for c in sorted({cls for cls, _ in fns if cls} | set(classes)):
+            out += class_shape(tree, c)
         for c in classes:
             out += class_consts(tree, c)
         for cls, name in fns:
@@ -175,6 +222,15 @@ SPEC = [
     ('param_defaults', 'eudoxia/simulator.py', [(None, 'get_param_defaults')], (), False),
     ('sched_registry', 'eudoxia/scheduler/decorators.py',
      [(None, 'register_scheduler_init'), (None, 'register_scheduler')], (), True),
+    ('segment_class', 'eudoxia/workload/pipeline.py',
+     [('Segment', n) for n in ('__init__', 'get_io_seconds', 'get_cpu_time', 'get_peak_memory_gb', 'get_seconds_until_oom')],
+     ('Segment',), False),
+    ('workload_base', 'eudoxia/workload/workload.py',
+     [('WorkloadReader', 'get_workload'), ('WorkloadReader', 'batch_by_arrival')], ('PipelineArrival',), False),
+    ('to_dicts', 'eudoxia/executor/container.py', [('Container', 'get_pipeline_id'), ('Container', 'to_dict')], (), False),
+    ('to_dicts_pool', 'eudoxia/executor/resource_pool.py', [('ResourcePool', 'status_report'), ('ResourcePool', 'to_dict')],
+     (), False),
+    ('to_dicts_result', 'eudoxia/executor/assignment.py', [('ExecutionResult', 'to_dict')], (), False),
     ('cli_run', 'eudoxia/__main__.py', [(None, 'run_command'), (None, 'gentrace_command')], (), False),
     ('sched_wrapper', 'eudoxia/scheduler/scheduler.py', [('Scheduler', '__init__'), ('Scheduler', 'run_one_tick')],
      (), False),
